@@ -2,6 +2,8 @@ import Ecal.Model.ParserWF
 import Ecal.Model.TokenChannel
 import Ecal.Lemmas.ParserMain
 import Ecal.Lemmas.ParserShape
+import Ecal.Lemmas.ParserShapeS
+import Ecal.Lemmas.ParserWalk
 /-!
 # C07 — parsing is total: an error or a well-formed tree, and nothing left running
 -/
@@ -129,6 +131,41 @@ theorem parse_wellformed (ts : List Tok) (t : Node) (h : parseToks ts = (some t,
   cases hb : parseBody (fuelFor ts) { toks := ts, node := none } with
   | ok n p => rw [hb] at hw h; simp at h; subst h; exact hw
   | err e p => rw [hb] at h; simp at h
+
+/-- **parse_wellformed_strict.** The strict form (`WellFormedS`, Model/ParserWFS.lean) which the consumers need
+    to WALK the tree: the clauses of `WellFormed`, and additionally every child in an operand position carries
+    a token (the token-less constructed nodes only where the parent's kind asks for them by name, the
+    token-less `true` only as the sole child of an `else`-guard), `as` = [identifier],
+    `except` = string* (as | identifier)? statements, the clauses of `try` and the name of function / sink /
+    mutex carry tokens; the root carries a token unless it is the top-level `statements` node.
+    All token lists, all kinds. Proof: `Ecal.Parse.S.specsW` (`Lemmas/ParserShapeS.lean`). -/
+theorem parse_wellformed_strict (ts : List Tok) (t : Node) (h : parseToks ts = (some t, none)) :
+    WellFormedRoot t = true := by
+  have hw := Ecal.Parse.S.parseBody_wf (fuelFor ts) ts
+  unfold Sat at hw
+  unfold parseToks parseToksWith at h
+  cases hb : parseBody (fuelFor ts) { toks := ts, node := none } with
+  | ok n p => rw [hb] at hw h; simp at h; subst h; exact hw
+  | err e p => rw [hb] at h; simp at h
+
+/-- **wellformed_walkable.** On a strictly well-formed tree every dereference of the consumer census
+    (`walkable`, Model/ParserWalk.lean: the unguarded `Children[k]` / `.Token` accesses of Validate, Eval and
+    PrettyPrint, transcribed with their source lines) is defined. The census is a transcription (trusted);
+    the harness additionally runs the real PrettyPrint and ParseWithRuntime + Validate on every returned tree. -/
+theorem wellformed_walkable (t : Node) (h : WellFormedS t = true) : walkable t = true := wf_walk t h
+
+/-- … hence every tree the parser returns can be walked -/
+theorem parse_walkable (ts : List Tok) (t : Node) (h : parseToks ts = (some t, none)) : walkable t = true := by
+  have := parse_wellformed_strict ts t h
+  simp only [WellFormedRoot, Bool.and_eq_true] at this
+  exact wf_walk t this.1
+
+/-- the trees of the review which the weaker `WellFormed` accepted are rejected by the strict predicate and are
+    indeed not walkable: `except[true(no token), statements]` (rt_statements.go:636 reads `.Token.Val`) -/
+example :
+    let bad : Node := .mk "except" (some ⟨70, 0, [], false, false, 0, 1, 1⟩) 0 .none .none
+      [some (.mk "true" none 0 .term .none [] []), some (.mk "statements" none 0 .none .none [] [])] []
+    WellFormed bad = true ∧ WellFormedS bad = false ∧ walkable bad = false := by decide
 
 /-- the same for source text through the lexer model -/
 theorem parse_text_wellformed (input : List Nat) (t : Node) (h : parse input = (some t, none)) :
